@@ -156,6 +156,7 @@ fn run_root_case(
 
     // independent kernel oracle first (lookups do not change the tree)
     let kern = ops::kernel_line(&root, op, rflags, &labels);
+    let kernb = ops::kernel_beneath_line(&root, op, rflags, &labels);
 
     let before_snap = tree::snapshot(&top);
     let pre_effect = if op.is_mutating() { Some(effect::prepare(&top, &root, op, &before_snap)) } else { None };
@@ -211,6 +212,10 @@ fn run_root_case(
     s.push_str(&outcome.line(&labels));
     s.push('\n');
     if let Some(k) = kern {
+        s.push_str(&k);
+        s.push('\n');
+    }
+    if let Some(k) = kernb {
         s.push_str(&k);
         s.push('\n');
     }
